@@ -5,10 +5,6 @@
 (* encoded outcome (an object, or [k |-> "exc", cls |-> ..]).                                    *)
 EXTENDS Curve, Batch
 
-Cells(o) == CASE o.k = "c" -> <<o.v>>
-              [] o.k \in {"v", "s"} -> o.v
-              [] o.k \in {"m", "f"} -> IF Len(o.v) = 0 THEN <<>> ELSE o.v[1]      \* (first row is enough for the knots)
-              [] OTHER -> <<>>
 Distinct(s) == \A i \in 1..Len(s), j \in 1..Len(s) : i # j => s[i] # s[j]
 IncreasingQ(s) == \A i \in 1..(Len(s) - 1) : Lt(s[i], s[i + 1])
 KnotRows(o) == CASE o.x.k = "v" -> <<o.x.v>>
@@ -21,6 +17,7 @@ WellObs(o) == /\ o.fill \in Fills
 
 Verdict(o) ==
     IF ~WellObs(o) THEN "malformed_observation"
+    ELSE IF ~FloatExact(o.a, o.y, o.x, o.fill) THEN "outside_float_exact_domain"      \* the driver's mistake, not the code's
     ELSE IF o.a_after # o.a \/ o.y_after # o.y \/ o.x_after # o.x THEN "operand_changed"
     ELSE IF o.out.k = "exc" THEN "raised"
     ELSE LET w == Interp(o.a, o.y, o.x, o.fill) IN
